@@ -58,6 +58,67 @@ linecache.cache[_BAD_FN] = (len(BAD_SRC), None, BAD_SRC.splitlines(True), _BAD_F
 _BAD_CODE = compile(BAD_SRC, _BAD_FN, "exec")
 
 
+_WINDOW = {}
+
+
+def before_takeout(crash):
+    """mechanism of the recorded finding: the fault arrives after register() changed the method table and before _compile() has
+    taken the function out of service -- only register/_register/_update/compile/_compile/_lock_parents are active, and inside
+    _compile the line is not after the one that re-installs the first-call entry point (read from the current source)."""
+    import inspect
+
+    from ovld.core import Ovld
+
+    if "last" not in _WINDOW:
+        lines, start = inspect.getsourcelines(Ovld._compile)
+        idx = [i for i, ln in enumerate(lines) if "_bootstrap_code" in ln]
+        _WINDOW["last"] = start + idx[0] if idx else -1
+    outer = {"register", "_register", "_update", "compile", "_compile", "_lock_parents", "_set_defn"}
+    if not crash.stack or not set(crash.stack) <= outer:
+        return False
+    if crash.stack[0] == "_compile":
+        try:
+            line = int(crash.fired.split(":")[1].split()[0])
+        except Exception:  # noqa: BLE001
+            return False
+        return line <= _WINDOW["last"]
+    return True
+
+
+def _native_interrupt_before_takeout():
+    """witness of C18-interrupt-before-takeout against the real code: an interrupt arrives when register() has stored the new method and is
+    about to start the rebuild; the method is listed afterwards but calls keep following the previous table"""
+    from ovld import Ovld
+
+    class Stop(BaseException):
+        pass
+
+    def hook(code, lineno):
+        if code.co_name == "_update":
+            raise Stop()
+
+    ov = Ovld()
+
+    def f_obj(x: object):
+        return "object"
+
+    def f_int(x: int):
+        return "int"
+
+    ov.register(f_obj)
+    assert ov.dispatch(1) == "object"
+    try:
+        with fault.Armed(hook):
+            ov.register(f_int)
+    except Stop:
+        pass
+    listed = any(f is f_int for f in ov.defns.values())
+    return listed and ov.dispatch(1) == "object"
+
+
+NATIVE_WITNESSES = {"c18_interrupt_before_takeout": _native_interrupt_before_takeout}
+
+
 def make_run(W, shape, known_active=None, replay_info=None):
     from ovld import Ovld, class_check
     from ovld.utils import UsageError
@@ -146,22 +207,31 @@ def make_run(W, shape, known_active=None, replay_info=None):
         else:
             ctx.pc.append(kappa > crash.n)
         ctx.literals += 1
+        listed = None
+        if scen == "rebuild":
+            # interrupted register(): the registration either took effect (the method is listed) or it did not; every probe must then follow
+            # the complete set of methods the function lists
+            listed = any(getattr(f, "__name__", "") == hs[late].__name__ for f in ov.defns.values())
+            clean_sets = [list(base) + [late]] if listed else [list(base)]
         got = probe_all(ov, LOG)
         exps = []
         for s_ in clean_sets:
             ref, _, LOG2 = build(s_)
             exps.append(probe_all(ref, LOG2))
-        # interrupted register(): each probe must behave like the clean function with or without the new method
-        # (the interrupt may fall before or after the point where the registration takes effect)
         ok = all(any(g == e[i] for e in exps) for i, g in enumerate(got))
+        known = []
+        if not ok and scen == "rebuild" and faulted and listed:
+            known.append(("C18-interrupt-before-takeout", before_takeout(crash)))
         info = dict(scenario=scen, crash=(what if faulted else None), occurrence=crash.occurrence, _line_index=k if faulted else None, lines=crash.n,
+                    stack=list(crash.stack)[:8] if faulted else None, new_method_listed=listed,
                     probes_after=got, clean=exps[0] if not ok else None)
-        return Verdict(ok, (), info, ["fault" if faulted else "nofault"], nontrivial=faulted)
+        return Verdict(ok, known, info, ["fault" if faulted else "nofault"], nontrivial=faulted)
 
     def run_natural(ctx):
         kind = shape["kind"]
         base = shape["methods"]
-        pos = ctx.choose("badpos", len(base) + 1)
+        warm = shape.get("warm")
+        pos = len(base) if warm else ctx.choose("badpos", len(base) + 1)
         hs, LOG, ns = _MS.instantiate(W)
         nsb = {"T_BAD": W.K[shape.get("badtype", 0)], "__name__": "symx_c18_bad"}
         exec(_BAD_CODE, nsb)
@@ -179,13 +249,28 @@ def make_run(W, shape, known_active=None, replay_info=None):
         seq = list(base)
         order = seq[:pos] + ["bad"] + seq[pos:]
         reg_err = None
+        child = None
         for m in order:
+            if m == "bad" and warm:
+                probe_all(ov, LOG)            # the function is in use (built, tables filled) when the invalid method arrives: a REBUILD fails
+                if shape.get("linked"):
+                    # a linked variant with a method of its own, in use as well: the parent's methods are part of its complete set
+                    child = ov.copy(linkback=True)
+                    child.register(hs[5])
+                    probe_all(child, LOG)
             try:
                 ov.register(bad if m == "bad" else hs[m])
             except Exception as e:  # noqa: BLE001
                 reg_err = type(e).__name__
-        trace = dict(kind=kind, position=pos)
+        trace = dict(kind=kind, position=pos, in_use_before=bool(warm), register_error=reg_err)
         ok = True
+        bad_listed = any(f is bad for f in ov.defns.values())
+        if reg_err is not None and bad_listed:
+            reg_err = None                    # the registration failed loudly but the method is listed: calls must keep failing
+        elif reg_err is not None:
+            base_now, _, LOGn = build(base)
+            if probe_all(ov, LOG) != probe_all(base_now, LOGn):
+                ok = False                    # not listed: the function must behave as if it had never been offered
 
         def config_error(out):
             t = out[1]
@@ -200,11 +285,27 @@ def make_run(W, shape, known_active=None, replay_info=None):
             for o in first + again:
                 if not config_error(o):
                     ok = False
+        if child is not None:
+            c_first = probe_all(child, LOG)
+            c_again = probe_all(child, LOG)
+            trace["variant_first_round"] = [o[1] for o in c_first]
+            if any(f is bad for f in child.defns.values()):
+                for o in c_first + c_again:
+                    if not config_error(o):
+                        ok = False
         try:
             ov.unregister(bad)
         except Exception as e:  # noqa: BLE001
             trace["unregister_error"] = type(e).__name__
             ok = False
+        if child is not None:
+            c_after = probe_all(child, LOG)
+            cref, _, LOGc = build(list(base) + [5])
+            c_exp = probe_all(cref, LOGc)
+            trace["variant_after_unregister"] = [o[1] for o in c_after]
+            if c_after != c_exp:
+                ok = False
+                trace["variant_clean"] = [o[1] for o in c_exp]
         after = probe_all(ov, LOG)
         ref, _, LOG2 = build(base)
         exp = probe_all(ref, LOG2)
@@ -219,11 +320,13 @@ def make_run(W, shape, known_active=None, replay_info=None):
         k = ctx.value(kappa).as_long()
         calls = [0]
         armed = [True]
+        raised = [False]
 
         def pred(cls):
             calls[0] += 1
             if armed[0] and calls[0] == k:
-                raise RuntimeError("user predicate failed")
+                raised[0] = True
+                raise (TypeError if shape.get("exc") == "TypeError" else RuntimeError)("user predicate failed")
             return getattr(cls, "_idx", None) in (0, 1)
 
         hs, LOG, ns = _MS.instantiate(W)
@@ -241,9 +344,8 @@ def make_run(W, shape, known_active=None, replay_info=None):
         outs = []
         for c, f in PROBES:
             o = full_outcome(lambda: ov.dispatch(mkarg(c, f)), LOGa)
-            if o[1][0] == "EXC" and "user predicate failed" in o[1][1]:
-                faulted = True
             outs.append(o)
+        faulted = raised[0]       # (whether or not the exception reached the caller)
         if faulted:
             ctx.pc.append(kappa == k)
         else:
@@ -306,8 +408,11 @@ def gen_shapes(tier, seed):
     for kind in ("names", "next", "source"):
         for methods in ([0, 1, 2], [2, 0], [4, 2, 1]):
             shapes.append(dict(scenario="natural", kind=kind, methods=methods, concrete_hierarchy=conc if tier == "quick" else None))
+            shapes.append(dict(scenario="natural", kind=kind, methods=methods, warm=True, concrete_hierarchy=conc if tier == "quick" else None))
+            shapes.append(dict(scenario="natural", kind=kind, methods=methods, warm=True, linked=True, concrete_hierarchy=conc if tier == "quick" else None))
     for methods in ([0, 1, 2], [2, 1, 0, 3]):
-        shapes.append(dict(scenario="hook", methods=methods, krange=[1, MAXK], concrete_hierarchy=conc if tier == "quick" else None))
+        for exc in ("RuntimeError", "TypeError"):     # (TypeError is what issubclass itself raises: it must not be mistaken for "not a class")
+            shapes.append(dict(scenario="hook", methods=methods, exc=exc, krange=[1, MAXK], concrete_hierarchy=conc if tier == "quick" else None))
     return shapes, len(shapes), False
 
 
